@@ -54,6 +54,8 @@ m("c03-asend-first-referent", GL, '            if hasattr(referent, "ag_frame"):
 # ---- C04 -------------------------------------------------------------------
 m("c04-from-idx", GL, "                from_idx = this_thread_frames.index(inner_frame) - 1", "                from_idx = this_thread_frames.index(inner_frame)", "C04", "slice312")
 m("c04-limit-branches", GL, "        if inner_frame is None and outer_frame is not None:\n            del frames[spec.limit :]", "        if inner_frame is not None and outer_frame is not None:\n            del frames[spec.limit :]", "C04", "slice312,slice39")
+m("c04-f27-revert", GL, "        for ident, thread_inner_frame in sys._current_frames().items():\n            if ident != threading.get_ident():\n                frames = try_from(thread_inner_frame)", "        for ident, inner_frame in sys._current_frames().items():\n            if ident != threading.get_ident():\n                frames = try_from(inner_frame)", "C04", "other312,other310")
+m("c04-other-thread-limit-keeps-inner", GL, "        if inner_frame is None and outer_frame is not None:\n            del frames[spec.limit :]", "        if inner_frame is None and outer_frame is not None and frames[-1] is get_true_caller():\n            del frames[spec.limit :]", "C04", "other312,other310")
 m("c04-dead-parent-revert", GL, "        and greenlet_getcurrent().parent is not None\n", "        and greenlet_getcurrent().parent\n", "C04", "slice312")
 # ---- C05 -------------------------------------------------------------------
 m("c05-no-try-elaborate-frame", EX, "        except Exception as ex:\n            save_errors.append(ex)\n            frame.hide = False\n            replacement = PRUNE", "        except ZeroDivisionError as ex:\n            save_errors.append(ex)\n            frame.hide = False\n            replacement = PRUNE", "C05", "faults312")
